@@ -7,9 +7,9 @@ from . import c17
 TEXT = ('Decibels::as_amplitude returns literal 1.0 on == 0.0 and literal 0.0 on <= SILENCE, both before powf; Frame::panned '
         'returns self untouched at Panning::CENTER and clamps otherwise; no Sub/SubAssign impl of ClockTime subtracts tick counts '
         'with a raw unsigned `-` (saturating_sub instead); ClockTime::partial_cmp yields None across clocks and compares '
-        'ticks before fraction; a mapping clamps before easing. Monotonicity, agreement with 10^(dB/20), round trips and '
+        'ticks before fraction; every fraction stored by ClockTime Add/Sub arithmetic lies in [0, 1) by a rounding-aware interval evaluation; a mapping clamps before easing. Monotonicity, agreement with 10^(dB/20), round trips and '
         'easing shapes are exhaustive-value statements and are not decided.')
-TECHNIQUE = 'MIR path-predicate / table rules'
+TECHNIQUE = 'MIR path-predicate / table rules + interval abstract interpretation of stored values'
 
 
 def run(ctx, R, tier):
@@ -18,6 +18,7 @@ def run(ctx, R, tier):
     pan(F, R)
     sub(F, R)
     cmp_(F, R)
+    frac(F, R)
     c17.mapping(F, R)
 
 
@@ -118,6 +119,50 @@ def sub(F, R):
                     '%s subtracts tick counts with a raw unsigned `-` (%s): ClockTime{ticks: 1} - 2 overflows (panic in debug, wraps to '
                     '2^64-1 in release) while the f64 sibling saturates' % (it['path'], raw), detail={'impl': im['trait_ref']}, where=b.file)
     R.floor('B.C19.sub', n, 4)
+
+
+def frac(F, R):
+    """Clock-time arithmetic keeps the fraction in [0, 1): every value an Add/Sub/AddAssign/SubAssign impl of ClockTime
+    stores into `fraction` evaluates, in the interval domain of kvlib.intervals (rounding-aware), on every path, to a
+    subset of [0, 1) -- assuming the operands' fractions are in [0, 1) (inductive) and the amount is finite."""
+    from ..intervals import evaluate, path_env, Iv
+    unit = Iv(0.0, 1.0, False, True)
+    inv = {'.fraction': unit}
+    n = 0
+    for im in F.impls:
+        if im['self_ty'] != 'clock::time::ClockTime' or im['trait'] not in ('std::ops::Sub', 'std::ops::SubAssign', 'std::ops::Add', 'std::ops::AddAssign'):
+            continue
+        for it in im['items']:
+            b = F.body(it['path'])
+            if b is None:
+                continue
+            stores = []
+            for bb, si, s in b.stmts():
+                if s['k'] != 'assign':
+                    continue
+                if s['rv']['k'] == 'agg' and s['rv'].get('adt') == 'clock::time::ClockTime':
+                    i = s['rv']['fields'].index('fraction')
+                    stores.append((bb, describe(b, s['rv']['ops'][i], depth=10, at=bb)))
+                elif s['lhs']['p'] and s['lhs']['p'][-1][0] == 'field' and s['lhs']['p'][-1][2] == 'fraction' \
+                        and s['lhs']['p'][-1][3] == 'clock::time::ClockTime':
+                    stores.append((bb, describe_rv(b, s['rv'], depth=10, at=bb)))
+            if not stores:
+                continue
+            paths = [p for p in explore(b) if p.end == 'return']
+            for bb, d in stores:
+                n += 1
+                worst = None
+                for p in paths:
+                    if bb not in p.blocks:
+                        continue
+                    iv = evaluate(d, path_env(p.decisions), inv)
+                    if not iv.within(unit):
+                        worst = iv
+                R.check(worst is None, 'B.C19.frac', '%s#%d' % (it['path'], n),
+                        '%s stores %s into ClockTime.fraction, whose value range is %s: not within [0, 1) (fraction == 1.0 or < 0 '
+                        'breaks the ordering against ticks + fraction)' % (it['path'], d[:140], worst),
+                        detail={'value': d[:160], 'range': '[0, 1)'}, where=b.where(bb))
+    R.floor('B.C19.frac', n, 4)
 
 
 def cmp_(F, R):
